@@ -101,8 +101,18 @@ def _pipelines():
   def p_sliced(ds):
     return (transform.TreeTransform().data_source(ds).apply(lambda x: {'v': list(np.asarray(x)), 'k': [int(v) % 2 for v in np.asarray(x)]})
             .agg(SumAgg(), input_keys='v', output_keys='s').add_slice('k'))
+  def p_chain2(ds):
+    a = transform.TreeTransform(name='a').data_source(ds).apply(lambda x: np.asarray(x) + 1).agg(SumAgg(), output_keys='s1')
+    b = transform.TreeTransform(name='b').apply(lambda x: np.asarray(x) * 2).agg(rs.MeanAndVariance().as_agg_fn(), output_keys='m2')
+    return a.chain(b)
+  def p_chain3(ds):
+    a = transform.TreeTransform(name='a').data_source(ds).apply(lambda x: np.asarray(x) + 1).agg(SumAgg(), output_keys='s1')
+    b = transform.TreeTransform(name='b').apply(lambda x: np.asarray(x) * 2)
+    c = transform.TreeTransform(name='c').apply(lambda x: np.asarray(x) - 1).agg(SumAgg(), output_keys='s3')
+    return a.chain(b).chain(c)
   return [('apply+MeanAndVariance', p_mean), ('apply+functional-sum', p_sum), ('apply+two-aggregates', p_two_aggs),
-          ('apply+sum sliced by key', p_sliced)]
+          ('apply+sum sliced by key', p_sliced), ('chain of two named transforms, an aggregate each', p_chain2),
+          ('chain of three named transforms, aggregates first and last', p_chain3)]
 
 
 def _norm(r):
@@ -117,6 +127,15 @@ def _norm(r):
   return r
 
 
+def _drain(it):
+  out = []
+  while True:
+    try:
+      out.append(next(it))
+    except StopIteration as e:
+      return out, e.value
+
+
 def bounded_resume_pipeline(p):
   S = Search(p, dict(pipelines='apply + aggregate(s), num_threads=0', data='range(n), n<=6, whole and shard (0,2)/(1,2)', cuts='every cut, original keeps running for 0..2 more batches before the restore'))
   for pname, mk in _pipelines():
@@ -126,11 +145,15 @@ def bounded_resume_pipeline(p):
         def fresh():
           pl = mk(ds)
           return pl, (pl.make(shard=shard) if shard else pl.make()).iterate()
-        _, it0 = fresh()
-        full = expect(lambda: list(it0))
+        try:
+          _, it0 = fresh()
+        except TypeError:
+          continue        # a chain of named transforms cannot be sharded through make(shard=...): not a supported configuration
+        full = expect(lambda: _drain(it0))
         if full[0] != 'ok':
           S.check(False, dict(pipeline=pname, n=n, what='uninterrupted run'), f'{pname} n={n}: {full}', cls=pname)
           continue
+        full = ('ok', full[1][0], _norm(getattr(full[1][1], 'agg_result', None)))
         agg_full = _norm(it0.agg_result)
         for cut in range(0, len(full[1]) + 1):
           for extra in (0, 1, 2):
@@ -143,11 +166,17 @@ def bounded_resume_pipeline(p):
               for _ in range(extra):     # the original keeps running after the checkpoint
                 next(it)
               it2 = pl.make().iterate().from_state(state)
-              rest = list(it2)
-              return head + rest, _norm(it2.agg_result)
+              rest, returned = _drain(it2)
+              # a second restore from the SAME captured state (a retry) must behave like the first
+              it3 = pl.make().iterate().from_state(state)
+              rest3, returned3 = _drain(it3)
+              return (head + rest, _norm(it2.agg_result), _norm(getattr(returned, 'agg_result', None)),
+                      head + rest3, _norm(it3.agg_result), _norm(getattr(returned3, 'agg_result', None)))
             got = expect(go)
-            ok = got[0] == 'ok' and mc.close(_norm(got[1][0]), _norm(full[1])) and mc.close(got[1][1], agg_full)
+            ok = (got[0] == 'ok' and mc.close(_norm(got[1][0]), _norm(full[1])) and mc.close(got[1][1], agg_full)
+                  and mc.close(got[1][2], full[2])                                   # the value the exhausted iterator returns
+                  and mc.close(_norm(got[1][3]), _norm(full[1])) and mc.close(got[1][4], agg_full) and mc.close(got[1][5], full[2]))
             if not S.check(ok, dict(pipeline=pname, n=n, shard=str(shard), cut=cut, extra_batches_before_restore=extra),
-                           f'{pname} n={n} shard={shard}: checkpoint after {cut}, original ran {extra} more, restored run gives {got}; uninterrupted {full[1]} / {agg_full}', cls=pname):
+                           f'{pname} n={n} shard={shard}: checkpoint after {cut}, original ran {extra} more, restored run gives (elements, aggregate, returned aggregate; then the same for a second restore from the same state) {got}; uninterrupted {full[1]} / {agg_full} / returned {full[2]}', cls=pname):
               return S.result()
   return S.result()
